@@ -448,6 +448,7 @@ func c15R3(c *Ctx, rule string) {
 		}
 	}
 	_ = listed
+	sortSupportSound(c, rule, "snapMetaSlice")
 	// Less: ascending lexicographic on (Term, Index, ID), all 27 orderings
 	if lf := c.Fn(rule, "(snapMetaSlice).Less"); lf != nil {
 		keys := []string{"Term", "Index", "ID"}
@@ -667,6 +668,22 @@ func c15R5(c *Ctx, rule string) {
 			v, _ := c.P.StoredValue(w.Instr, bf)
 			c.Check(rule, "Open:reader-is-the-verified-handle", c.P.InstrPos(w.Instr), "the returned reader reads from the handle whose content was just verified", c.P.D(v) == fh+"#0", "= "+c.P.D(v), 1)
 		}
+	}
+	if bh := c.P.LookupField("bufferedFile", "bh"); bh != nil {
+		for _, w := range c.P.FieldWritesIn(fn, bh) {
+			v, _ := c.P.StoredValue(w.Instr, bh)
+			c.Check(rule, "Open:buffer-over-the-verified-handle", c.P.InstrPos(w.Instr), "the buffered reader handed out wraps that same handle", c.P.D(v) == "bufio.NewReader("+fh+"#0)", "= "+c.P.D(v), 1)
+		}
+	}
+	if rf := c.Fn(rule, "(*bufferedFile).Read"); rf != nil {
+		ok := false
+		d := ""
+		for _, ret := range engine.ReturnsOf(rf) {
+			vals := engine.ReturnValues(ret)
+			d = c.P.D(vals[0]) + ", " + c.P.D(vals[1])
+			ok = d == "recv.bh.Read(p1)#0, recv.bh.Read(p1)#1"
+		}
+		c.Check(rule, "bufferedFile.Read:passes-through", c.P.Pos(rf.Pos()), "Read returns exactly what the buffered reader over the verified handle returned", ok, "returns "+d, 1)
 	}
 }
 
